@@ -1197,4 +1197,23 @@ example (b : Box ℚ) (hdet : M3.det b.vects ≠ 0) (pbc : V3 Bool) (pos : List 
       insideRel ((wrap Rat.floor (1 / 1000) b pbc pos).box.cartToRel p') :=
   wrap_inside Rat.floor isFloor_ratFloor _ (by norm_num) b hdet pbc pos
 
+/-- (statement audit) the hypotheses of `lammps_normal_unique` / `normalize_cell_unique` are met by two DIFFERENT boxes
+    (a tilted LAMMPS-normal cell at two origins; the conclusion is about the vectors only), and a cell with the same
+    lengths and angles that is NOT LAMMPS-normal (the same cell turned a quarter about z) has the same Gram matrix and
+    other vectors — so `isLammpsNorm` cannot be dropped. -/
+example :
+    let L : Box ℚ := ⟨⟨⟨3, 0, 0⟩, ⟨1, 4, 0⟩, ⟨-1, 1/2, 5⟩⟩, ⟨0, 0, 0⟩⟩
+    let M : Box ℚ := ⟨⟨⟨3, 0, 0⟩, ⟨1, 4, 0⟩, ⟨-1, 1/2, 5⟩⟩, ⟨7, -2, 1/3⟩⟩
+    let R : Box ℚ := ⟨⟨⟨0, 3, 0⟩, ⟨-4, 1, 0⟩, ⟨-1/2, -1, 5⟩⟩, ⟨0, 0, 0⟩⟩
+    Box.isLammpsNorm L = true ∧ Box.isLammpsNorm M = true ∧ L ≠ M ∧ gram L.vects = gram M.vects ∧
+    gram R.vects = gram L.vects ∧ Box.isLammpsNorm R = false ∧ R.vects ≠ L.vects := by
+  decide +kernel
+
+/-- (statement audit) the hypothesis of `zeroSmall_eq_self` is a real restriction: a cell with a component `1e-9` of the
+    largest one is changed by the setter's clean-up, one with `2e-9` is not. -/
+example :
+    zeroSmall (1/1000000000 : ℚ) ⟨⟨4, 0, 0⟩, ⟨1/250000000, 4, 0⟩, ⟨0, 0, 4⟩⟩ ≠ ⟨⟨4, 0, 0⟩, ⟨1/250000000, 4, 0⟩, ⟨0, 0, 4⟩⟩ ∧
+    zeroSmall (1/1000000000 : ℚ) ⟨⟨4, 0, 0⟩, ⟨1/125000000, 4, 0⟩, ⟨0, 0, 4⟩⟩ = ⟨⟨4, 0, 0⟩, ⟨1/125000000, 4, 0⟩, ⟨0, 0, 4⟩⟩ := by
+  decide +kernel
+
 end Atomman.C05
